@@ -2,6 +2,8 @@ package main
 
 import (
 	"bufio"
+	"crypto/sha256"
+	"encoding/hex"
 	"encoding/json"
 	"fmt"
 	"os"
@@ -9,6 +11,7 @@ import (
 	"sort"
 	"strings"
 	"time"
+	"verifsim/tooldriver"
 )
 
 // finding is one line of /verif/known_findings.jsonl.
@@ -179,4 +182,9 @@ func perHour(n int, wall float64) int {
 		return 0
 	}
 	return int(float64(n) * 3600 / wall)
+}
+
+func sum(b []byte) tooldriver.FileSum {
+	h := sha256.Sum256(b)
+	return tooldriver.FileSum{Len: len(b), SHA: hex.EncodeToString(h[:8])}
 }
